@@ -4,7 +4,7 @@ From Coq Require Import ZArith List Bool.
 From Model Require Import Base Arith.
 From Model Require Import Block Examples.
 From Model Require Import Ledger.
-From Lemmas Require Import ArithLemmas HoldingLemmas NoWinners NoWinnersStatus HistoryLemmas StatusLemmas ExecExact.
+From Lemmas Require Import ArithLemmas HoldingLemmas NoWinners NoWinnersStatus HistoryLemmas StatusLemmas ExecExact WindowLemmas.
 Open Scope Z_scope.
 
 (* The amount credited is floor(input x source rate / destination rate); once averaging is
@@ -106,6 +106,14 @@ Theorem C07_held_conversion_executes_exactly : forall c cur rates avgs s e hh t 
     Db.rates s' = Db.rates s /\ holding s' = holding s /\ is_replay s' (e_hash e) = true /\ bank s' = bank s.
 Proof. exact held_conversion_executes_exactly. Qed.
 Print Assumptions C07_held_conversion_executes_exactly.
+
+(* "The FIRST later block that has graded rates": if r is the first rated height above g, every height strictly between is
+   unrated (those blocks run no holding pass) and no later height's window contains g any more — with
+   C06_chain_held_height_exactly_one_block, a batch held at g is looked at by the block at r and by no other block of the chain. *)
+Theorem C07_waits_until_the_first_rated_height : forall sf g r k,
+  first_rated_above sf g r -> (g < k < r -> rates sf !! k = None) /\ (r < k -> 0 <= r -> ~ In g (window sf k)).
+Proof. exact chain_waits_until_first_rated. Qed.
+Print Assumptions C07_waits_until_the_first_rated_height.
 
 (* in the example chain the conversion entered at 102 is pending through the unrated block 103 and
    executes at 104 with 104's rates: 20 pFCT at 4 USD -> 80 pUSD *)
